@@ -20,7 +20,12 @@ func verifTableInvariant(s *Server) {
 	defer verifMapOrders(true)
 	s.mu.RLock()
 	t := &s.table
-	total, indexed, good := 0, 0, 0
+	total, indexed, good, notBad := 0, 0, 0, 0
+	type ent struct {
+		id   int160.T
+		addr string
+	}
+	var live []ent
 	for _, ids := range t.addrs {
 		verifAssert(len(ids) > 0, "C05: no empty per-address index entry")
 		indexed += len(ids)
@@ -46,6 +51,12 @@ func verifTableInvariant(s *Server) {
 			if s.IsGood(n) {
 				good++
 			}
+			// what Nodes() documents it exports: the entries that are not bad (written out here
+			// independently of Server.nodeIsBad)
+			if !n.failedLastQuestionablePing && (s.config.NoSecurity || NodeIdSecure(n.Id.AsByteArray(), n.Addr.IP())) {
+				notBad++
+				live = append(live, ent{n.Id, n.Addr.String()})
+			}
 		}
 	}
 	verifAssert(indexed == total, "C05: address index and buckets hold the same entries")
@@ -53,7 +64,17 @@ func verifTableInvariant(s *Server) {
 	verifAssert(s.NumNodes() == total, "C05: NumNodes agrees with the entries")
 	st := s.Stats()
 	verifAssert(st.Nodes == total && st.GoodNodes == good, "C05: Stats agrees with the entries")
-	verifAssert(len(s.Nodes()) <= total, "C05: the exported node list holds no more than the entries")
+	exported := s.Nodes()
+	verifAssert(len(exported) == notBad, "C05: the exported node list holds exactly the entries that are not bad")
+	for _, e := range live {
+		found := 0
+		for _, ni := range exported {
+			if int160.FromByteArray(ni.ID) == e.id && NewAddr(ni.Addr.UDP()).String() == e.addr {
+				found++
+			}
+		}
+		verifAssert(found == 1, "C05: every entry that is not bad appears exactly once in the exported node list")
+	}
 }
 
 // verifPrefixLen: shared leading bits of two ids, written independently of int160.BitLen.
